@@ -54,7 +54,7 @@ def tc_int(tc):
 
 
 def common_header_valid(h):
-    return (tc_valid(h.tc) and (h.flags == 0 or h.flags == 128) and 0 <= h.pl <= 65535 and 0 <= h.mhl <= 255
+    return (tc_valid(h.tc) and 0 <= h.flags <= 255 and 0 <= h.pl <= 65535 and 0 <= h.mhl <= 255
             and h.reserved == 0)
 
 
@@ -187,9 +187,9 @@ def sent0():
     return ghost("sent")[0]
 
 
-def common_int(nh, ht, hst, tc, mobile, pl, mhl):
+def common_int(nh, ht, hst, tcv, mobile, pl, mhl):
     """the 8 octets of a Common Header from its field values (reserved fields zero, mobility flag = MSB of flags)"""
-    return (nh * 2 ** 60 + ht * 2 ** 52 + hst * 2 ** 48 + tc_int(tc) * 2 ** 40 + mobile * 128 * 2 ** 32
+    return (nh * 2 ** 60 + ht * 2 ** 52 + hst * 2 ** 48 + tcv * 2 ** 40 + mobile * 128 * 2 ** 32
             + pl * 2 ** 16 + mhl * 2 ** 8)
 
 
@@ -229,3 +229,28 @@ def mib_ok(mib):
 def area_int(area):
     return (u(area.latitude, 32) * 2 ** 96 + u(area.longitude, 32) * 2 ** 64 + area.a * 2 ** 48 + area.b * 2 ** 32
             + area.angle * 2 ** 16)
+
+
+
+# --------------------------------------------------------------------------- lifetime quantisation (C20)
+OPAQUE_IN_CODEC = ("best_ms", "requested_ms_int")
+
+
+def best_ms(v):
+    """largest lifetime representable as multiplier (0..63) x base (50 ms, 1 s, 10 s, 100 s) not exceeding v ms"""
+    c0 = min(v // 50, 63) * 50
+    c1 = min(v // 1000, 63) * 1000
+    c2 = min(v // 10000, 63) * 10000
+    c3 = min(v // 100000, 63) * 100000
+    return max(0, c0, c1, c2, c3)
+
+
+def requested_ms_int(max_packet_lifetime, default_s):
+    """requested maximum packet lifetime in whole milliseconds (MIB default when none is requested)"""
+    return int(max_packet_lifetime * 1000) if max_packet_lifetime is not None else default_s * 1000
+
+
+def exists_code(ms):
+    """ms is multiplier x base for some 6-bit multiplier"""
+    return ((ms % 50 == 0 and ms // 50 <= 63) or (ms % 1000 == 0 and ms // 1000 <= 63)
+            or (ms % 10000 == 0 and ms // 10000 <= 63) or (ms % 100000 == 0 and ms // 100000 <= 63))
